@@ -21,6 +21,7 @@ harness defects and become machinery failures.
 import json
 import math
 import random
+import time
 import types
 import warnings
 from fractions import Fraction
@@ -390,7 +391,20 @@ def plan(shapes, rng, reps):
 
 
 def build_case(code, spec, rng, counters):
-    shape, fmt, variant, fast, op, sel = spec["shape"], spec["fmt"], spec["variant"], spec["fast"], spec["op"], spec["sel"]
+    """A shape that does not fit the exponent range of its dtype (float16: chains of gaps) is realised in the next wider one."""
+    i0 = FMTS.index(spec["fmt"])
+    for fmt in FMTS[i0:]:
+        c = build_case_fmt(code, spec, fmt, rng)
+        if c is not None:
+            if fmt != spec["fmt"]:
+                counters["widened"] = counters.get("widened", 0) + 1
+            return c
+    counters["infeasible"] = counters.get("infeasible", 0) + 1
+    return None
+
+
+def build_case_fmt(code, spec, fmt, rng):
+    shape, variant, fast, op, sel = spec["shape"], spec["variant"], spec["fast"], spec["op"], spec["sel"]
     n = shape[0]
     if op in ("add", "sub", "mul") and n < 2:
         op = "renorm"
@@ -398,7 +412,6 @@ def build_case(code, spec, rng, counters):
     if op in ("renorm", "add", "sub"):
         c = concretise(shape, fmt, rng)
         if c is None:
-            counters["infeasible"] = counters.get("infeasible", 0) + 1
             return None
         lst = c["lst"]
         if op == "renorm":
@@ -436,7 +449,6 @@ def build_case(code, spec, rng, counters):
                 if cb is not None:
                     break
         if ca is None or (sb is not None and cb is None):
-            counters["infeasible"] = counters.get("infeasible", 0) + 1
             return None
         sizes = [-1, 1, 2, 3, 4]
         case.update(a=ca["lst"], b=cb["lst"] if cb else [], size=sizes[(sel // 3) % len(sizes)])
@@ -627,8 +639,11 @@ def run(tier, seed):
     u1_joined = False
     try:
         rng = random.Random(seed)
+        t0 = time.time()
+        timing = {}
         shapes = export_shapes(chk, tier)
-        reps = 3 if quick else 3
+        timing["shapes_s"] = round(time.time() - t0, 1)
+        reps = 2
         specs = plan(shapes, rng, reps)
         stats = dict(notes={}, examples={}, ood=set(), by={}, nontrivial=set(), raised=0, canary=[], canary_seen={})
         counters = {}
@@ -645,6 +660,7 @@ def run(tier, seed):
                 for pi in range(parts):
                     jobs.append((tier, (seed * 1000 + bi) * 100 + fi * 10 + pi, mine[pi::parts]))
             events, eshapes = [], []
+            t1 = time.time()
             for evs, shp, cnt, ng in procs.map(realise, jobs):
                 events += evs
                 eshapes += shp
@@ -654,6 +670,7 @@ def run(tier, seed):
             for ev in events:
                 ev["id"] = eid
                 eid += 1
+            timing["driver_s"] = round(timing.get("driver_s", 0) + time.time() - t1, 1)
             if quick and not u1_joined:
                 join_u1(chk, u1)
                 u1_joined = True
@@ -693,8 +710,9 @@ def run(tier, seed):
     chk.assumptions += [
         "non-overlap as documented by utils.overlapping: a = 0 or b = 0 or |b| < ulp(a) or |a| < ulp(b); ulp = quantum of the float",
         "'absent overflow' = all items finite and sum |x_i| < 2^(emax-1) (order independent; two binades of margin)",
-        "fast=True is judged only where every Fast2Sum application of the documented algorithm has exponent(x) >= exponent(y) or a "
-        "zero operand (FastOK, computed by the spec); the docstring's 'decreasing magnitudes' alone is not sufficient (noted, not failed)",
+        "fast=True is judged only on inputs of non-increasing magnitude (docstring) for which every Fast2Sum application of the "
+        "documented algorithm has exponent(x) >= exponent(y) or a zero operand (FastOK, computed by the spec); the docstring's "
+        "'decreasing magnitudes' alone is not sufficient (noted, not failed)",
         "'after at most two passes': pass 1 or pass 2 is in normal form; judged when both passes are in domain and kept the sum",
         "a size limit truncates unless the inputs fit the limit or the result has fewer non-zero items than the limit; add/subtract/"
         "multiply/square also apply the dtype's maximal expansion length (4/12/40)",
@@ -708,8 +726,9 @@ def run(tier, seed):
              "non-trivial = distinct (op, dtype, operands) with at least two non-zero input items" % (tier, reps),
         distinct_nontrivial=len(stats["nontrivial"]),
         extra_cov=dict(shapes=len(shapes), events_by_config=stats["by"], spec_notes=n,
-                       infeasible_draws=counters.get("infeasible", 0), events_outside_a_domain=len(stats["ood"]),
-                       raised_events=stats["raised"], traced_graphs_per_worker=ngraphs))
+                       infeasible_draws=counters.get("infeasible", 0), draws_moved_to_a_wider_dtype=counters.get("widened", 0),
+                       events_outside_a_domain=len(stats["ood"]),
+                       raised_events=stats["raised"], traced_graphs_per_worker=ngraphs, timing=timing))
 
 
 def replay(path):
